@@ -288,7 +288,8 @@ func fnJSON(seed uint64, n int, all bool) {
 	}
 }
 
-var pathAtoms = []string{"/", "/", "/", ".", "..", "a", "b", "d", "f", ".ergo", ".ergox", "..x", "x..", "é", "", "sub", "deep", "nested", "...", " "}
+var pathAtoms = []string{"/", "/", "/", ".", "..", "a", "b", "d", "f", ".ergo", ".ergox", "..x", "x..", "é", "", "sub", "deep", "nested", "...", " ",
+	"?", "#", "%41", "a:b", "\\", "$&+,;=@", "~_-", "日本", "\U0001F600", "\"", "<>", "!*'()", "\t"}
 
 func genPath(r *rng) string {
 	n := 1 + r.n(7)
@@ -378,7 +379,7 @@ func fnPath(seed uint64, n int) {
 			v = J{"ok": vr}
 		}
 		ans := J{"clean": filepath.Clean(p), "dir": filepath.Dir(p), "base": filepath.Base(p), "abs": filepath.IsAbs(p),
-			"join": filepath.Join(repo, p), "validate": v}
+			"join": filepath.Join(repo, p), "validate": v, "file_url": ergo.VerifDeriveFileURL(p, repo)}
 		// discovery walk from a start spelled relative to a cwd inside the tree
 		cwd := pick(r, []string{repo, filepath.Join(repo, "sub"), filepath.Join(repo, "sub/deep"), filepath.Join(repo, "nested/x"), root, filepath.Join(repo, ".ergo"), filepath.Join(repo, "filergo")})
 		start := pick(r, []string{".", "..", "../..", "sub", "sub/deep", ".ergo", "./.ergo/", cwd, cwd + "/", filepath.Join(repo, "sub/deep"), filepath.Join(repo, ".ergo"),
